@@ -252,8 +252,18 @@ def _worker(prop, pid_, master, indices, deadline, out_fd, wall_cap, tier, det_i
             os.kill(child, signal.SIGKILL)
         except OSError:
             pass
-        os.waitpid(child, 0)
-        if current is not None and time.time() <= deadline:
+        try:
+            _, wst = os.waitpid(child, 0)
+        except OSError:
+            wst = 0
+        capped = os.WIFEXITED(wst) and os.WEXITSTATUS(wst) == 4
+        if current is not None and capped and time.time() > deadline:
+            # the run hung until its wall cap and the budget is over: it is reported (HARNESS-ERROR), never dropped
+            seed = run_seed(master, pid_, current)
+            emit({'seed': seed, 'index': current, 'status': 'killed', 'plan': prop.gen_plan(plan_rng(seed), tier),
+                  'error': 'wall cap %.0fs (run did not finish; budget over, not retried)' % wall_cap})
+            done += 1
+        elif current is not None and time.time() <= deadline:
             # the child died (wall cap or crash) inside run `current`: retry it alone, then go on
             seed = run_seed(master, pid_, current)
             plan = prop.gen_plan(plan_rng(seed), tier)
